@@ -87,3 +87,19 @@ Theorem C10_source_logout_request_accept : forall parse dsig cfg now enc r,
     LogoutRequestOK cfg r.
 Proof. exact source_logout_request_accept. Qed.
 Print Assumptions C10_source_logout_request_accept.
+
+(* the logout validators composed with the TRANSLATED parseResponse / maybeDeflate (P_Pipeline.v): remaining oracles are
+   DEFLATE, etree's parser, the round-trip validator and goxmldsig's Validate *)
+From V Require Import Deflate GenPreludeDeflate GenDeflate P_Pipeline.
+Theorem C10_source_logout_pipelines_are_the_model :
+  forall inflate read_from_bytes rt_ok dsig cfg now enc,
+    norm_pm (G_ValidateEncodedLogoutResponsePOST (src_parse inflate read_from_bytes rt_ok cfg) dsig cfg now enc)
+    = PVal (norm_res (entry (model_parse inflate read_from_bytes rt_ok cfg) enc (validate_logout_response_tree dsig cfg))) /\
+    norm_pm (G_ValidateEncodedLogoutRequestPOST (src_parse inflate read_from_bytes rt_ok cfg) dsig cfg now enc)
+    = PVal (norm_res (entry (model_parse inflate read_from_bytes rt_ok cfg) enc (validate_logout_request_tree dsig cfg))).
+Proof.
+  exact (fun inflate read_from_bytes rt_ok dsig cfg now enc =>
+           conj (source_logout_response_pipeline inflate read_from_bytes rt_ok dsig cfg now enc)
+                (source_logout_request_pipeline inflate read_from_bytes rt_ok dsig cfg now enc)).
+Qed.
+Print Assumptions C10_source_logout_pipelines_are_the_model.
